@@ -195,11 +195,21 @@ func c10Get(h map[string]http.Handler, target string) (r c10Resp) {
 	if pn := c10Safely(func() { hd.ServeHTTP(rec, httptest.NewRequest("GET", target, nil)) }); pn != "" {
 		return c10Resp{Status: -2, Body: "panic: " + pn}
 	}
-	body := rec.Body.String()
+	return c10Resp{Status: rec.Code, Body: c10NormBody(rec.Body.String())}
+}
+
+// c10NormBody removes what is not part of the property's observation from a page: the scratch directory
+// of the source trees, and the saved-configuration menu + name list (they legitimately list what
+// /saveconfig stored — that is C19's subject; what the REPORT shows must not depend on it).
+var c10MenuRE = regexp.MustCompile(`(?s)<div id="config" class="menu-item">.*?<div id="download" class="menu-item">`)
+var c10DatalistRE = regexp.MustCompile(`(?s)<datalist id="config-list">.*?</datalist>`)
+
+func c10NormBody(body string) string {
 	if c10TreesDir != "" {
 		body = strings.ReplaceAll(body, c10TreesDir, "<TREES>")
 	}
-	return c10Resp{Status: rec.Code, Body: body}
+	body = c10MenuRE.ReplaceAllString(body, "<CONFIG-MENU/><div id=\"download\" class=\"menu-item\">")
+	return c10DatalistRE.ReplaceAllString(body, "<CONFIG-LIST/>")
 }
 
 func c10RespDiff(a, b c10Resp) string {
@@ -682,7 +692,7 @@ func c10WebStallPhase(c *Ctx, cs *c10Case, urls []string, e *c10WebEnv) {
 		runtime.GOMAXPROCS(old)
 		c.Res.Hit(fmt.Sprintf("web-stalled-responses(GOMAXPROCS=%d)", procs))
 		for _, f := range fl {
-			got := c10Resp{Status: f.w.code, Body: strings.ReplaceAll(f.w.body.String(), c10TreesDir, "<TREES>")}
+			got := c10Resp{Status: f.w.code, Body: c10NormBody(f.w.body.String())}
 			if f.pn != "" {
 				got = c10Resp{Status: -2, Body: "panic: " + f.pn}
 			}
